@@ -46,6 +46,11 @@ META = {
         text="C12_pack_entry / C12_reject_iff / C12_only_named / C12_flatten / C12_pack / C12_cli_stack are proved for every filter setting and every entry (no enumeration). The Lean filter functions are compared with filters.Apply*Filter on all complete settings x an entry zoo, and end to end through unpackTar.",
         note="Trusted: Lean kernel; the filt/unpack streams. The warm-cache clause (reject rules with an already shelved ware) is decided by the cache stream.",
     ),
+    "C13": dict(
+        technique="Lean 4 theorems on the model of CreateMirror (no-op, success => verified and committed, failure => nothing committed) + differential correspondence on real warehouses",
+        text="C13_noop, C13_served, C13_fail_clean are proved for every source outcome, header list and commit outcome; C13_tie (T-fact) pins the compare-before-Commit structure and the use of nilfs. The mirror stream checks that the target alone serves the identical fileset, that a second mirror is a no-op without sources, that sources are untouched and failures leave the target clean; the kvfs stream injects faults into the copy.",
+        note="Trusted: Lean kernel; codec hypothesis; C08 for the atomicity of the commit itself.",
+    ),
     "C16": dict(
         technique="Lean 4 theorems (first holder wins, error kinds, usage) by induction over the warehouse list + exhaustive differential correspondence",
         text="C16_first / C16_errors / C16_usage are proved for lists of any length about the model of PickReader and of the controllers' answers; the model is compared with the real PickReader on every list up to length 2/3 over 16 warehouse kinds (real directories, loopback HTTP).",
